@@ -18,7 +18,10 @@ EXTRA = {"C01a": ["C06"], "C01b": ["C05"], "C02a": ["C04"], "C02b": ["C04"], "C0
          "C16h": ["C05", "C07"], "C17g": ["C18"], "C17h": ["C18"],
          # round 5 (ids ending in i / j)
          "C01i": ["C06"], "C02j": ["C08"], "C03i": ["C10"], "C03j": ["C05"], "C04i": ["C05"], "C05i": ["C08"], "C07i": ["C10"], "C09j": ["C10"], "C12j": ["C17"],
-         "C17j": ["C18"]}
+         "C17j": ["C18"],
+         # round 6 (ids ending in k / l)
+         "C01k": ["C06"], "C02l": ["C08"], "C03k": ["C10"], "C03l": ["C09"], "C04k": ["C05"], "C04l": ["C02"], "C05k": ["C08"], "C06l": ["C17"], "C07l": ["C04"], "C09l": ["C02"],
+         "C10k": ["C07"], "C11k": ["C12"], "C11l": ["C13"], "C12k": ["C17"], "C12l": ["C17"], "C13l": ["C17"], "C18k": ["C12"]}
 args = sys.argv[1:]; tier = "quick"
 if "--tier" in args: i = args.index("--tier"); tier = args[i + 1]; del args[i:i + 2]
 ids = args or sorted(os.path.basename(d) for d in glob.glob(ROOT + "/seeded/C*"))
